@@ -42,6 +42,8 @@ Require Import Ctpg.Proofs.ContainersBits.
 Require Import Ctpg.Proofs.ContainersVec.
 Require Import Ctpg.Proofs.ContainersSort.
 Require Import Ctpg.Proofs.UtilsCorrect.
+Require Import Ctpg.Model.RegexFront.
+Require Import Ctpg.Proofs.UtilsRegexLink.
 Require Import Ctpg.Model.Dfa.
 Require Import Ctpg.Model.Containers.
 Require Import Ctpg.Proofs.LRGenWordsRefine.
@@ -93,18 +95,24 @@ Print Assumptions C03_whole_set_flip_is_exact_for_256_bits.
 
 (* regex::hex_digits_to_char on two hex digits is 16 * v1 + v2 (as a byte, also for values >= 0x80 where char is negative) *)
 Theorem C03_hex_escapes_decode_to_their_value :
-  forall d1 d2 v1 v2 : nat, hex_value d1 = Some v1 -> hex_value d2 = Some v2 -> hex_digits_to_char d1 d2 = 16 * v1 + v2.
+  forall d1 d2 v1 v2 : nat, hex_value d1 = Some v1 -> hex_value d2 = Some v2 -> Utils.hex_digits_to_char d1 d2 = 16 * v1 + v2.
 Proof. exact @hex_digits_to_char_spec. Qed.
 Print Assumptions C03_hex_escapes_decode_to_their_value.
 
+(* LINK (pattern front end): the model's unsigned hex decoding of \xHH equals the signed-char computation of regex::hex_digits_to_char on all hex digit pairs *)
+Theorem C03_front_end_hex_decoding_is_the_real_one :
+  forall d1 d2 : nat, d1 < 256 -> d2 < 256 -> is_hex_digit d1 = true -> is_hex_digit d2 = true -> hex_digits_to_char d1 d2 = Utils.hex_digits_to_char d1 d2.
+Proof. exact @front_end_hex_decoding_is_the_real_one. Qed.
+Print Assumptions C03_front_end_hex_decoding_is_the_real_one.
+
 (* utils::is_hex_digit on signed chars = the three ASCII ranges *)
 Theorem C03_hex_digit_class :
-  forall b : nat, b < 256 -> is_hex_digit b = (48 <=? b) && (b <=? 57) || (97 <=? b) && (b <=? 102) || (65 <=? b) && (b <=? 70).
+  forall b : nat, b < 256 -> Utils.is_hex_digit b = (48 <=? b) && (b <=? 57) || (97 <=? b) && (b <=? 102) || (65 <=? b) && (b <=? 70).
 Proof. exact @is_hex_digit_spec. Qed.
 Print Assumptions C03_hex_digit_class.
 
 (* utils::is_dec_digit = '0'..'9' *)
 Theorem C03_dec_digit_class :
-  forall b : nat, b < 256 -> is_dec_digit b = (48 <=? b) && (b <=? 57).
+  forall b : nat, b < 256 -> Utils.is_dec_digit b = (48 <=? b) && (b <=? 57).
 Proof. exact @is_dec_digit_spec. Qed.
 Print Assumptions C03_dec_digit_class.
